@@ -360,7 +360,12 @@ fn metamorphic(m: &Module, rng: &mut Rng, rep: &mut Report) {
         // the real command line sees the attribute the way the in-process pipeline does
         if rep.distribution.get("cli-tie").copied().unwrap_or(0) < tie_budget() {
             rep.count("cli-tie");
-            if let Some(d) = tool::cli_tie_default(&util::workdir("C13tie"), &with, t) {
+            // every third time under another accepted spelling of the backend on the command line
+            let n = rep.distribution.get("cli-tie").copied().unwrap_or(0);
+            let sp = tool::spellings(t);
+            let spelled = if n % 3 == 2 { sp[(n / 3) % sp.len()].clone() } else { t.to_string() };
+            if spelled != t { rep.count("cli-tie:other-spelling"); }
+            if let Some(d) = tool::cli_tie_spelled(&util::workdir("C13tie"), &with, t, &spelled, None, &["lib_name=somelib".to_string(), "kotlin.domain=dev.diplomattest".to_string()]).map(|mut d| { d["spelled"] = json!(spelled); d }) {
                 rep.disagree(&format!("{} backend={t}", m.sexp()), "cli-vs-in-process", &d.to_string(), "same verdict and byte-identical files");
             }
         }
@@ -540,6 +545,57 @@ fn exhaustive_small(rep: &mut Report, thorough: bool) {
     }
 }
 
+
+/// demo_gen carries a second, type-level channel next to methods: `#[diplomat::demo(custom_func = "file")]` bundles a
+/// user file and registers `RenderTermini<Type>` in index.mjs.  A type disabled for demo_gen — directly, through
+/// `js` (demo_gen answers to that name too), through a compound condition or a `supports` flag — must leave no
+/// trace there; an enabled one must be bundled.  Run through the real command line (the file is read from disk).
+fn demo_custom_func_probe(rep: &mut Report) {
+    use diplomat_core::ast::attrs::DiplomatBackendAttrCfg as Cfg;
+    let conds: [(&str, &str); 8] = [
+        ("Alpha", "demo_gen"), ("Beta", "js"), ("Gamma", "kotlin"), ("Delta", "not(any(js, cpp))"),
+        ("Epsilon", "any(dart, all(demo_gen, not(c)))"), ("Zeta", "supports = accessors"), ("Eta", "all(js, kotlin)"), ("Theta", "*"),
+    ];
+    let mut src = String::from("#[diplomat::bridge]\nmod ffi {\n    #[diplomat::opaque]\n    #[diplomat::demo(custom_func = \"custom_plain.mjs\")]\n    pub struct Plain(u8);\n    impl Plain { pub fn get(&self) -> u8 { 0 } }\n");
+    for (name, c) in conds {
+        src += &format!("    #[diplomat::opaque]\n    #[diplomat::attr({c}, disable)]\n    #[diplomat::demo(custom_func = \"custom_{name}.mjs\")]\n    pub struct {name}(u8);\n    impl {name} {{ pub fn get(&self) -> u8 {{ 0 }} }}\n");
+    }
+    src += "}\n";
+    let dir = util::workdir("C13demo");
+    let _ = std::fs::remove_dir_all(&dir);
+    std::fs::create_dir_all(dir.join("src")).unwrap();
+    std::fs::write(dir.join("src/lib.rs"), &src).unwrap();
+    for n in conds.iter().map(|c| c.0).chain(["plain"]) {
+        std::fs::write(dir.join(format!("src/custom_{n}.mjs")), "export default {};\n").unwrap();
+    }
+    let o = std::process::Command::new(tool::cli_path()).args(["demo_gen", "out", "--entry", "src/lib.rs", "-s"]).current_dir(&dir).output();
+    rep.oracle_runs += 1;
+    rep.count("probe:demo-custom-func");
+    let case = "(c13 probe demo-custom-func)";
+    let Ok(o) = o else { rep.notes.push("demo custom_func probe: the diplomat-tool binary could not be run".into()); return };
+    let index = std::fs::read_to_string(dir.join("out/index.mjs")).unwrap_or_default();
+    if !o.status.success() || index.is_empty() {
+        rep.oracle_fail(case, "demo_gen does not generate the custom_func probe", json!({"exit": o.status.code(), "stderr": String::from_utf8_lossy(&o.stderr).lines().take(5).collect::<Vec<_>>()}));
+        return;
+    }
+    let v = validator("demo_gen");
+    let vjs = validator("js"); // the bindings under js/ come from the js backend run under its own name
+    let mut expect = vec![("Plain", true, true)];
+    for (name, c) in conds {
+        let cfg: Cfg = syn::parse_str(c).expect("condition parses");
+        expect.push((name, !v.satisfies_cfg(&cfg, None).unwrap_or(false), !vjs.satisfies_cfg(&cfg, None).unwrap_or(false)));
+    }
+    for (name, enabled, enabled_js) in expect {
+        let present = crate::c06::contains_word(&index, &format!("RenderTermini{name}"));
+        let bundled = dir.join(format!("out/custom_{}.mjs", if name == "Plain" { "plain" } else { name })).exists();
+        let js_present = dir.join(format!("out/js/{name}.mjs")).exists();
+        if present != enabled || bundled != enabled || js_present != enabled_js {
+            rep.oracle_fail(case, "a type's presence in demo_gen's output does not follow its disable condition", json!({"type": name, "enabled_for_demo_gen": enabled, "registered_in_index": present, "custom_file_bundled": bundled, "enabled_for_js": enabled_js, "js_binding_written": js_present, "source": src}));
+        }
+    }
+    let _ = std::fs::remove_dir_all(&dir);
+}
+
 pub fn main(args: &[String]) {
     let a = util::parse_args(args);
     let mut rep = Report::new("C13");
@@ -580,6 +636,8 @@ pub fn main(args: &[String]) {
         impl_placement(m, &mut rep);
     }
     exports_oracle(&mods, if thorough { 200 } else { 24 }, &mut rep);
+    demo_custom_func_probe(&mut rep);
+    crate::tool::alias_probe(&mut rep, "C13", crate::tool::ALIAS_SRC);
     rep.print();
 }
 
